@@ -221,6 +221,7 @@ func yamlOracle(ctx *common.Ctx, or *common.Oracle, items []item) {
 			default:
 				why = yamlSame(back[0], v)
 			}
+			why = strings.Join(strings.Fields(why), " ")
 			indTxt := "default"
 			if ind != nil {
 				indTxt = fmt.Sprint(*ind)
